@@ -10,7 +10,7 @@ from scenario import bam as BAM
 LEVEL = "exploration"
 LEVEL_TEXT = ("Deductive part (vcgen/z3, all inputs): _iterate_cigar (_variants.pyx, read through Cython's parser): every tuple the lock-step walk yields is sound - the variant lies inside (M,=,X,D, at the reported offset) or at the insertion point of (I) the named CIGAR element, never inside a reference skip, clip or padding, and the reported query position is the read offset of that reference position; variant indices increase strictly. cigar_prefix_length: prefix sums, stops at N with the consumed length. "
               "Bounded stand-in: the real ReadSetReader is run on generated "
-              "BAMs whose reads are exact copies of one true haplotype (exact CIGARs with S/H clips, =/X, unrelated private indels >= 8 bp from any variant, "
+              "BAMs whose reads are exact copies of one true haplotype (exact CIGARs with S/H clips, =/X, unrelated private indels (>= 15 bp from any variant with a reference; without one >= 3 bp, or an insertion 1..L-1 bases left of an insertion variant), "
               "reference skips next to and across variants, mate pairs); for every read and every variant its aligned blocks fully cover, the recorded allele "
               "must be the haplotype's allele (always found with a reference; never the other one without a reference for SNVs and unshiftable indels), and "
               "nothing may be recorded for variants outside the aligned blocks.")
@@ -38,7 +38,77 @@ def unshiftable(ref, v):
     return True
 
 
-def decorate(rng, sc, hardclip=0.15, splice=0.25, private=0.2, pairs=0.2):
+def private_indel(rng, c, rd, noref):
+    """The read's haplotype additionally carries an indel that is not in the VCF (an 'unrelated' indel): the read stays an exact copy of that
+    haplotype and its CIGAR shows the indel where it is.  Two placements:
+      far  - >= 15 reference bases (re-alignment window and margin) from every variant span with a reference, >= 3 without one;
+      near - (no-reference path only) an insertion of 2-6 bases whose reference position r lies 1..L-1 bases left of the normalised position of an
+             insertion variant, i.e. the variant's position is within r+1 .. r+L-1; its bases are chosen (half of the time) so that the bases at
+             that offset spell the variant's inserted sequence.
+    Returns the rewritten read or None."""
+    cig = [tuple(x) for x in rd["cigar"]]
+    if not all(op in ("M", "=", "X", "I", "D") for op, _ in cig):
+        return None
+    spans = [(v["pos"], v["pos"] + len(v["ref"])) for v in c["variants"]]
+    # candidate elements: M/= runs
+    elems = []
+    ref_pos, q = rd["start"], 0
+    for idx, (op, n) in enumerate(cig):
+        if op in ("M", "="):
+            elems.append((idx, ref_pos, q, n, op))
+        if op in ("M", "=", "X", "D"):
+            ref_pos += n
+        if op in ("M", "=", "X", "I"):
+            q += n
+    if not elems:
+        return None
+    near = []
+    if noref:
+        for v in c["variants"]:
+            if v["kind"] == "ins":
+                p = v["pos"] + 1
+                for idx, a, qa, n, op in elems:
+                    if a + 1 < p <= a + n - 1:      # p strictly inside the run, at least two bases after its start
+                        near.append((v, idx, a, qa, n, op))
+    if near and rng.random() < 0.5:
+        v, idx, a, qa, n, op = rng.choice(near)
+        p = v["pos"] + 1
+        L = rng.randint(2, 6)
+        r = rng.randint(max(a + 1, p - L + 1), p - 1)
+        bases = BAM.rand_seq(rng, L)
+        ins = v["alt"][1:]
+        if rng.random() < 0.5:
+            off = p - r
+            bases = (bases[:off] + ins + bases[off + len(ins):])[:L]
+        k = r - a
+        new = cig[:idx] + [(op, k), ("I", L), (op, n - k)] + cig[idx + 1:]
+        seq = rd["seq"][:qa + k] + bases + rd["seq"][qa + k:]
+        return dict(rd, cigar=[list(t) for t in new], seq=seq, private="near")
+    margin = 3 if noref else 15
+    for _ in range(8):
+        idx, a, qa, n, op = rng.choice(elems)
+        if n < 8:
+            continue
+        L = rng.randint(1, 5)
+        dele = rng.random() < 0.5
+        r = rng.randint(a + 2, a + n - 2 - (L if dele else 0)) if a + 2 <= a + n - 2 - (L if dele else 0) else None
+        if r is None:
+            continue
+        lo, hi = (r, r + L) if dele else (r, r)
+        if any(lo - margin < ve and vs < hi + margin for vs, ve in spans):
+            continue
+        k = r - a
+        if dele:
+            new = cig[:idx] + [(op, k), ("D", L), (op, n - k - L)] + cig[idx + 1:]
+            seq = rd["seq"][:qa + k] + rd["seq"][qa + k + L:]
+        else:
+            new = cig[:idx] + [(op, k), ("I", L), (op, n - k)] + cig[idx + 1:]
+            seq = rd["seq"][:qa + k] + BAM.rand_seq(rng, L) + rd["seq"][qa + k:]
+        return dict(rd, cigar=[list(t) for t in new], seq=seq, private="far")
+    return None
+
+
+def decorate(rng, sc, hardclip=0.15, splice=0.25, private=0.0, noref=False):
     """Rewrite some reads with harder CIGAR shapes (still exact copies of their haplotype)."""
     out = []
     for rd in sc["reads"]:
@@ -58,6 +128,8 @@ def decorate(rng, sc, hardclip=0.15, splice=0.25, private=0.2, pairs=0.2):
                     rd = dict(rd, seq=seq, cigar=[list(t) for t in cigar], start=start)
                 except ValueError:
                     pass
+        if private and rng.random() < private:
+            rd = private_indel(rng, c, rd, noref) or rd
         if rng.random() < hardclip:
             k = rng.randint(1, 30)
             if rng.random() < 0.6:
@@ -81,13 +153,14 @@ class AlleleDetection(BCheck):
 
     def inputs(self, tier, rng):
         for i in range(3000 if tier == "quick" else 40000):
-            yield dict(seed=rng.getrandbits(48), noref=(i % 3 == 2), splice=(0.5 if i % 2 else 0.0), hard=(0.2 if i % 4 == 0 else 0.0))
+            yield dict(seed=rng.getrandbits(48), noref=(i % 3 == 2), splice=(0.5 if i % 2 else 0.0), hard=(0.2 if i % 4 == 0 else 0.0),
+                       private=(0.4 if i % 5 in (2, 3) else 0.0))
 
     def scenario(self, inp):
         r = random.Random(inp["seed"])
         kinds = r.choice([("snv", "snv", "ins", "del", "mnp"), ("ins", "del"), ("snv", "mnp"), ("snv",), ("del",), ("ins",)])
         sc = BAM.generate(r, n_samples=(1, 1), kinds=kinds, depth=(2, 5), read_len=(40, 150), softclip=0.3, eqx=0.3)
-        return decorate(r, sc, hardclip=inp["hard"], splice=inp["splice"])
+        return decorate(r, sc, hardclip=inp["hard"], splice=inp["splice"], private=inp.get("private", 0.0), noref=inp["noref"])
 
     def check(self, inp):
         from whatshap.core import NumericSampleIds
